@@ -8,7 +8,8 @@
 From Coq Require Import ZArith List Bool.
 From FT Require Import Model.Base Model.Obs Model.Store Model.StoreCheck Model.C05Populate
                        Model.C05PopulateCheck Proofs.StoreWF Proofs.StoreMap Proofs.StoreCheckP
-                       Proofs.C05PositionsP Proofs.C05PopulateP Proofs.C05PopulateCheckP.
+                       Proofs.StoreMirror Proofs.C05PositionsP Proofs.C05PopulateP Proofs.C05MirrorP
+                       Proofs.C05PopulateCheckP.
 Import ListNotations.
 Open Scope Z_scope.
 
@@ -44,7 +45,7 @@ Theorem C05_offers : forall sp bd a s,
   wf_st s -> wf_tree (nranks s) a = true ->
   map ev3 (snd (populate sp bd a s))
   = exp_evs (nranks s) (nranks s) (s_d s) sp bd 0 [] (sub_of a) (sub_of (erase (s_root s))).
-Proof. intros sp bd a s H1 H2. exact (proj2 (proj2 (proj2 (populate_tree_spec sp bd a s H1 H2)))). Qed.
+Proof. intros sp bd a s H1 H2. exact (proj2 (proj2 (proj2 (populate_tree_spec sp bd (fun _ => true) a s (conj (fun _ _ => eq_refl) (fun _ _ _ => eq_refl)) H1 H2)))). Qed.
 Print Assumptions C05_offers.
 
 (* what "a presents" means: on a sorted fiber the model's iterator (bisect-based getPayload for
@@ -73,7 +74,7 @@ Theorem C05_result : forall sp bd a s q,
              (value_at (s_d s) q (erase (s_root s))).
 Proof.
   intros sp bd a s q H1 H2 H3.
-  exact (proj1 (proj2 (populate_tree_spec sp bd a s H1 H2)) q H3).
+  exact (proj1 (proj2 (populate_tree_spec sp bd (fun _ => true) a s (conj (fun _ _ => eq_refl) (fun _ _ _ => eq_refl)) H1 H2)) q H3).
 Qed.
 Print Assumptions C05_result.
 
@@ -90,36 +91,71 @@ Theorem C05_outside_untouched : forall sp bd a s c,
   ~ In c (map fst (a_presents (nranks s) sp 0 (sub_of a))) ->
   assoc c (root_es (fst (populate sp bd a s))) = assoc c (root_es s).
 Proof.
-  intros sp bd a s c H1 H2. exact (proj1 (proj2 (proj2 (populate_spec sp bd a s H1 H2))) c).
+  intros sp bd a s c H1 H2. exact (proj1 (proj2 (proj2 (populate_spec sp bd (fun _ => true) a s (conj (fun _ _ => eq_refl) (fun _ _ _ => eq_refl)) H1 H2))) c).
 Qed.
 Print Assumptions C05_outside_untouched.
 
 (* NO RESIDUE: a coordinate absent before the loop is absent after it unless something
-   non-default is now stored under it (no default leaf, no empty sub-fiber left behind) ... *)
+   non-default is now stored under it (no default leaf, no empty sub-fiber left behind) — for
+   bodies of the property's own family (leave / assign / accumulate / default / nested loop) ... *)
 Theorem C05_no_residue : forall sp bd a s c t,
+  (forall p, is_ref (bd p) = false) ->
   wf_st s -> wf_tree (nranks s) a = true ->
   assoc c (root_es s) = None -> assoc c (root_es (fst (populate sp bd a s))) = Some t ->
   i_is_empty (s_d s) t = false.
 Proof.
-  intros sp bd a s c t H1 H2.
-  exact (proj1 (proj2 (proj2 (proj2 (populate_spec sp bd a s H1 H2)))) c t).
+  intros sp bd a s c t Hnr H1 H2 H3 H4.
+  assert (Hrb : rb_ok bd (fun _ => false)).
+  { split; [intros p Hp; rewrite Hnr in Hp; discriminate|intros p c0 Hp; exact Hp]. }
+  destruct (proj1 (proj2 (proj2 (proj2 (populate_spec sp bd _ a s Hrb H1 H2)))) c t H3 H4) as [H|H];
+    [exact H|discriminate].
 Qed.
 Print Assumptions C05_no_residue.
 
-(* ... and the same two statements at every fiber the nest iterates over, level by level, plus
+(* ... and for bodies that also call getPayloadRef below an offered interior reference
+   ([ARefBelow]; outside the property's quantifier): residue only where the body itself made
+   such a call at or below the coordinate ([rb]) — what getPayloadRef creates stays *)
+Theorem C05_no_residue_ext : forall sp bd rb a s c t,
+  rb_ok bd rb -> wf_st s -> wf_tree (nranks s) a = true ->
+  assoc c (root_es s) = None -> assoc c (root_es (fst (populate sp bd a s))) = Some t ->
+  i_is_empty (s_d s) t = false \/ rb [c] = true.
+Proof.
+  intros sp bd rb a s c t Hrb H1 H2.
+  exact (proj1 (proj2 (proj2 (proj2 (populate_spec sp bd rb a s Hrb H1 H2)))) c t).
+Qed.
+Print Assumptions C05_no_residue_ext.
+
+(* with such a body the strict reading of "no sub-fiber left behind" fails in the faithful model
+   (and in the implementation, same witness): the sub-fiber created by the loop is kept because
+   its length is not 0, although all it holds is the default the body wrote through getPayloadRef *)
+Theorem C05_no_residue_refbelow_refuted : exists c,
+  c05_wf c = true /\ o_tree (oo_z0 (model_obs c)) = Node []
+  /\ exists t, lookup 0 (sub_of (o_tree (oo_z1 (model_obs c)))) = Some t /\ is_empty (k_dz c) t = true.
+Proof.
+  exists {| k_n := 2; k_dz := 0; k_da := 0; k_z := Node []; k_a := Node [(0, Node [(1, Leaf 5)])];
+            k_U := [false; false]; k_shape := [2; 3];
+            k_body := [([0], ARefBelow [1] (WAssign 0))] |}.
+  vm_compute. split; [reflexivity|]. split; [reflexivity|].
+  exists (Node [(1, Leaf 0)]). split; reflexivity.
+Qed.
+Print Assumptions C05_no_residue_refbelow_refuted.
+
+(* ... and the same statements at every fiber the nest iterates over, level by level, plus
    "an offered interior element the body left alone is unchanged": the oracle's [raw_ok] *)
-Theorem C05_raw_all_levels : forall sp bd a s,
-  wf_st s -> wf_tree (nranks s) a = true ->
-  raw_ok (nranks s) (nranks s) (s_d s) sp bd 0 [] (sub_of a)
+Theorem C05_raw_all_levels : forall sp bd rb a s,
+  rb_ok bd rb -> wf_st s -> wf_tree (nranks s) a = true ->
+  raw_ok (nranks s) (nranks s) (s_d s) sp bd rb 0 [] (sub_of a)
          (sub_of (erase (s_root s))) (sub_of (erase (s_root (fst (populate sp bd a s))))) = true.
-Proof. intros sp bd a s H1 H2. exact (proj1 (proj2 (proj2 (populate_tree_spec sp bd a s H1 H2)))). Qed.
+Proof.
+  intros sp bd rb a s H0 H1 H2. exact (proj1 (proj2 (proj2 (populate_tree_spec sp bd rb a s H0 H1 H2)))).
+Qed.
 Print Assumptions C05_raw_all_levels.
 
 (* z is well-formed after the loop: uniform depth, every fiber strictly sorted (C01's notion) *)
 Theorem C05_wf : forall sp bd a s,
   wf_st s -> wf_tree (nranks s) a = true ->
   wf_tree (nranks s) (erase (s_root (fst (populate sp bd a s)))) = true.
-Proof. intros sp bd a s H1 H2. exact (proj1 (populate_tree_spec sp bd a s H1 H2)). Qed.
+Proof. intros sp bd a s H1 H2. exact (proj1 (populate_tree_spec sp bd (fun _ => true) a s (conj (fun _ _ => eq_refl) (fun _ _ _ => eq_refl)) H1 H2)). Qed.
 Print Assumptions C05_wf.
 
 (* a is never modified: in the model the source is a value the run has no way to change; the
@@ -130,28 +166,85 @@ Theorem C05_source_pure : forall c,
 Proof. intros c. split; reflexivity. Qed.
 Print Assumptions C05_source_pure.
 
-(* the oracle evaluated on the implementation's observation accepts the model's own observation:
-   proved for the conjuncts source / offers+shown values / result / raw structure ([c05_core_ok]).
-   FULL STATEMENT (not proved):
-     Theorem C05_model_meets_spec : forall c, c05_wf c = true ->
-       holds c05_checker c (model c05_checker c) = true.
-   Missing conjuncts of [c05_holds_obs]:
-   - c05_wf_ok at the yields ("well-formed throughout"): every snapshot [e_root] is well-formed;
-     needs the context invariant (plug preserves wf_fib) threaded through RS; the final state is
-     covered by C05_wf;
-   - c05_ref_ok (the reference handed out is the element of the snapshot at that path): same
-     context invariant;
-   - c05_member_ok (rank lists mirror the tree at every yield and at the end, C02's notion):
-     needs "rank list = old list ++ identities created and not removed, LIFO", not proved.
-   - c05_active_ok (z's fiber takes a's active range, iterators.py 1093) is an observation of the
-     correspondence only: the model reports a's range by definition.
-   All of these are evaluated by the oracle on every generated case for the implementation and for
-   the model (verdict bit 4). *)
-Theorem C05_model_meets_spec_partial : forall c,
-  c05_wf c = true ->
-  V_to_obs (model c05_checker c) = Some (model_obs c) /\ c05_core_ok c (model_obs c) = true.
-Proof. exact c05_model_core. Qed.
-Print Assumptions C05_model_meets_spec_partial.
+(* what the oracle's [raw_ok] means, fiber by fiber (oracle soundness; it is evaluated on the
+   implementation's trees): at every fiber the nest iterates over ([iter_at]: every coordinate of
+   the path is presented by a and the body runs the nested loop there), an element at a
+   coordinate a does not present is the same before and after (none added, none removed), and a
+   coordinate absent before is absent after unless something non-default is stored under it *)
+Theorem C05_raw_meaning : forall pth k n dz sp bd rb lvl path aes zb za aes' c,
+  raw_ok k n dz sp bd rb lvl path aes zb za = true ->
+  iter_at k n sp bd lvl path aes pth = Some aes' ->
+  (~ In c (map fst (a_presents n sp (lvl + length pth) aes')) ->
+     subtree_at (pth ++ [c]) (Node za) = subtree_at (pth ++ [c]) (Node zb))
+  /\ (subtree_at (pth ++ [c]) (Node zb) = None ->
+      forall t, subtree_at (pth ++ [c]) (Node za) = Some t ->
+      is_empty dz t = false \/ rb (path ++ pth ++ [c]) = true).
+Proof. exact raw_ok_meaning. Qed.
+Print Assumptions C05_raw_meaning.
+
+(* OUTSIDE a UNTOUCHED at every level: for every fiber the nest iterates over and every
+   coordinate a's fiber there does not present, z's element is the same before and after *)
+Theorem C05_outside_untouched_levels : forall sp bd a s pth aes' c,
+  wf_st s -> wf_tree (nranks s) a = true ->
+  iter_at (nranks s) (nranks s) sp bd 0 [] (sub_of a) pth = Some aes' ->
+  ~ In c (map fst (a_presents (nranks s) sp (length pth) aes')) ->
+  subtree_at (pth ++ [c]) (erase (s_root (fst (populate sp bd a s))))
+  = subtree_at (pth ++ [c]) (erase (s_root s)).
+Proof.
+  intros sp bd a s pth aes' c H1 H2 H3.
+  exact (proj1 (populate_levels sp bd (fun _ => true) a s pth aes' c (conj (fun _ _ => eq_refl) (fun _ _ _ => eq_refl)) H1 H2 H3)).
+Qed.
+Print Assumptions C05_outside_untouched_levels.
+
+(* NO RESIDUE at every level: at every fiber the nest iterates over, a coordinate with no element
+   before the loop has none after it unless its payload is non-empty (a non-default leaf, or a
+   sub-fiber holding a non-default value): no default leaf, no empty sub-fiber is left behind
+   (bodies of the property's own family; with getPayloadRef actions: populate_levels, with [rb]) *)
+Theorem C05_no_residue_levels : forall sp bd a s pth aes' c t,
+  (forall p, is_ref (bd p) = false) ->
+  wf_st s -> wf_tree (nranks s) a = true ->
+  iter_at (nranks s) (nranks s) sp bd 0 [] (sub_of a) pth = Some aes' ->
+  subtree_at (pth ++ [c]) (erase (s_root s)) = None ->
+  subtree_at (pth ++ [c]) (erase (s_root (fst (populate sp bd a s)))) = Some t ->
+  is_empty (s_d s) t = false.
+Proof.
+  intros sp bd a s pth aes' c t Hnr H1 H2 H3 H4 H5.
+  assert (Hrb : rb_ok bd (fun _ => false)).
+  { split; [intros p Hp; rewrite Hnr in Hp; discriminate|intros p c0 Hp; exact Hp]. }
+  destruct (proj2 (populate_levels sp bd _ a s pth aes' c Hrb H1 H2 H3) H4 t H5) as [H|H];
+    [exact H|discriminate].
+Qed.
+Print Assumptions C05_no_residue_levels.
+
+(* THROUGHOUT: at every yield (the destination as it is when the body gets the reference) and at
+   the end, z is a well-formed member of its tensor: well-formed (C01), its rank lists mirror
+   its tree (C02's invariant [Mirror]: every fiber of depth k is in rank k's list exactly once,
+   no stale entry, owners right — what remains of a create-then-remove is nothing: Rank.pop()
+   takes exactly the fiber that was created), same number of ranks; and the reference handed
+   out is the element of that destination at the offered path *)
+Theorem C05_throughout : forall sp bd a s,
+  wf_st s -> Mirror s -> wf_tree (nranks s) a = true ->
+  let r := populate sp bd a s in
+  (wf_st (fst r) /\ Mirror (fst r) /\ nranks (fst r) = nranks s)
+  /\ Forall (fun e =>
+       let se := with_root s (e_root e) (e_nx e) (e_rk e) in
+       wf_st se /\ Mirror se /\ nranks se = nranks s
+       /\ subtree_at (e_path e) (erase (s_root se)) = Some (erase (e_z e))) (snd r).
+Proof.
+  intros sp bd a s H1 H2 H3. cbv zeta.
+  destruct (populate_through sp bd a s H1 H2 H3) as [(A1 & A2 & A3 & _) B].
+  split; [split; [exact A1|split; [exact A2|exact A3]]|]. exact B.
+Qed.
+Print Assumptions C05_throughout.
+
+(* the oracle evaluated on the implementation's observation accepts the model's own observation,
+   for every well-formed case: all of source / offers+shown values / result / raw structure /
+   reference-in-snapshot / well-formed and rank lists mirroring at every yield and at the end /
+   active range *)
+Theorem C05_model_meets_spec : forall c,
+  c05_wf c = true -> holds c05_checker c (model c05_checker c) = true.
+Proof. exact c05_model_holds. Qed.
+Print Assumptions C05_model_meets_spec.
 
 (* non-vacuity: depth 2, z overlapping a, an explicit default in z, an empty sub-fiber in z, an
    uncompressed lower rank of a; the body writes, accumulates, writes the default, leaves *)
